@@ -14,13 +14,13 @@ def one(path):
     try:
         dst = os.path.join(tmp, "repo")
         subprocess.run(["rsync", "-a", "--exclude", ".git", "/repo/", dst + "/"], check=True)
-        r = subprocess.run(["patch", "-p1", "-s", "-i", path], cwd=dst, capture_output=True, text=True)
+        r = subprocess.run(["patch", "-p1", "-s", "-i", path], cwd=dst, capture_output=True, text=True, errors="replace")
         if r.returncode != 0:
             return name, "stale", ["patch does not apply to the current tree: " + (r.stdout + r.stderr).strip()[:200]]
-        b = subprocess.run(["go", "build", "./..."], cwd=dst, env=ENV, capture_output=True, text=True)
+        b = subprocess.run(["go", "build", "./..."], cwd=dst, env=ENV, capture_output=True, text=True, errors="replace")
         if b.returncode != 0:
             return name, "stale", ["does not compile: " + b.stderr.strip()[:200]]
-        c = subprocess.run([os.path.join(HERE, "bin", "escalint"), "check", "-prop", "all", "-repo", dst, "-verif", HERE, "-n"], capture_output=True, text=True, env=ENV)
+        c = subprocess.run([os.path.join(HERE, "bin", "escalint"), "check", "-prop", "all", "-repo", dst, "-verif", HERE, "-n"], capture_output=True, text=True, errors="replace", env=ENV)
         lines = [l for l in c.stdout.splitlines() if l.startswith(("VIOLATED", "UNDECIDED", "VACUOUS", "ANCHOR-LOST"))]
         return name, "green" if c.returncode == 0 else "ALARM", lines
     finally:
